@@ -1906,7 +1906,7 @@ Section Complete.
     destruct (get_max_packet_size E I ce s) as [[ps|x] s1]; [|discriminate].
     destruct (ps =? 0) eqn:E0; [discriminate|]. apply N.eqb_neq in E0.
     eapply (read_usb_loop_complete address (clamp_down_memory_id mem_id) ps len ltac:(lia)); [| |exact H|exact Hs].
-    - lia.
-    - reflexivity.
+    - apply N.le_0_l.
+    - rewrite N.mul_0_l, N.min_0_l. reflexivity.
   Qed.
 End Complete.
